@@ -4,7 +4,7 @@
 Writes /tmp/m/<Cid>/out/<k>/confirm.json."""
 import subprocess, sys, json, os, re, shutil, time
 C, k = sys.argv[1], sys.argv[2]
-W = '/tmp/m/%s/repo' % C; O = '/tmp/m/%s/out/%s' % (C, k)
+MB = os.environ.get('MBASE', '/tmp/m'); W = '%s/%s/repo' % (MB, C); O = '%s/%s/out/%s' % (MB, C, k)
 def sh(cmd, timeout=7200):
     p = subprocess.run(cmd, shell=True, cwd=W, capture_output=True, text=True, timeout=timeout)
     return p.returncode, (p.stdout + p.stderr)
